@@ -186,7 +186,9 @@ const stackURL = "http://h.test/pkg.Svc/Method"
 
 // protocol options: 0 = Connect, 1 = gRPC, 2 = gRPC-Web
 func stackClientOptions(proto int, extra ...ClientOption) []ClientOption {
-	opts := []ClientOption{WithCodec(&stackCodec{})}
+	// gzip is always registered and cannot be encoded: keep it out of the
+	// data path with a large compress-min-bytes unless a harness overrides it.
+	opts := []ClientOption{WithCodec(&stackCodec{}), WithCompressMinBytes(1 << 20)}
 	switch proto {
 	case 1:
 		opts = append(opts, WithGRPC())
@@ -197,5 +199,5 @@ func stackClientOptions(proto int, extra ...ClientOption) []ClientOption {
 }
 
 func stackHandlerOptions(extra ...HandlerOption) []HandlerOption {
-	return append([]HandlerOption{WithCodec(&stackCodec{})}, extra...)
+	return append([]HandlerOption{WithCodec(&stackCodec{}), WithCompressMinBytes(1 << 20)}, extra...)
 }
